@@ -48,7 +48,7 @@ func runC11(c *core.Ctx) error {
 		b.Close()
 		c.Sample(map[string]any{"reference_schema": text})
 		k, kmut := c.Pick(1, 2), c.Pick(1, 1)
-		if err := runCorpusTL1(c, "C11", cp, k, kmut, 0, c.Pick(1, 2), c.Pick(1, 2), 0); err != nil {
+		if err := runCorpusTL1(c, "C11", cp, k, kmut, 0, c.Pick(1, 2), k+1, 0); err != nil {
 			return fmt.Errorf("%v\nschema:\n%s", err, text)
 		}
 	}
